@@ -287,6 +287,14 @@ pub enum Via {
 
 #[derive(Clone, Debug, Serialize, Deserialize)]
 pub struct Case {
+    /// the emitting contract first calls *itself* with funds attached: the transfer of the attached
+    /// funds is a bank message like any other (sender = recipient) and must reach the bank module
+    #[serde(default)]
+    pub self_funded: bool,
+    /// an earlier sibling sub-message (reply_on Never) fails before the routed message: the
+    /// transaction is aborted there and the routed message must never reach any module
+    #[serde(default)]
+    pub before_fails: bool,
     #[serde(default)]
     pub trigger_fails: bool,
     #[serde(default)]
@@ -560,6 +568,8 @@ impl RoutingCheck {
                     _ => Via::Execute,
                 };
                 let code_id = if case.origin == Origin::Lifted { b.lifted_code } else { b.puppet_code };
+                // only with a bank module that carries out (or accepts) the transfer
+                let self_funded = case.self_funded && !chain.is_empty() && case.modes[0] != Mode::Fail && via != Via::Reply;
                 // plan: node i at chain[i] forwards to chain[i+1]; the last one emits [sibling?, msg]
                 let mut nodes: BTreeMap<usize, NodeRt> = BTreeMap::new();
                 let mut lookup = BTreeMap::new();
@@ -574,17 +584,28 @@ impl RoutingCheck {
                         };
                         n.subs.push(SubMsg { id: 1, payload: Binary::default(), msg: m, gas_limit: None, reply_on: ReplyOn::Never });
                     } else {
+                        if self_funded {
+                            let m: CosmosMsg<XMsg> = WasmMsg::Execute { contract_addr: chain[i].to_string(), msg: to_json_binary(&PMsg { n: 53 }).unwrap(), funds: vec![coin(1, "eth")] }.into();
+                            n.subs.push(SubMsg { id: 4, payload: Binary::default(), msg: m, gas_limit: None, reply_on: ReplyOn::Never });
+                        }
                         if case.sibling {
                             let m: CosmosMsg<XMsg> = WasmMsg::Execute { contract_addr: b.helper.to_string(), msg: to_json_binary(&PMsg { n: 50 }).unwrap(), funds: vec![] }.into();
                             n.subs.push(SubMsg { id: 2, payload: Binary::default(), msg: m, gas_limit: None, reply_on: ReplyOn::Never });
                         }
                         let routed = SubMsg { id: 7, payload: Binary::from(b"pl".to_vec()), msg: msg.clone(), gas_limit: None, reply_on: ro(case.reply_on) };
+                        let failing: Option<SubMsg<XMsg>> = if case.before_fails {
+                            let m: CosmosMsg<XMsg> = WasmMsg::Execute { contract_addr: b.helper.to_string(), msg: to_json_binary(&PMsg { n: 52 }).unwrap(), funds: vec![] }.into();
+                            Some(SubMsg { id: 3, payload: Binary::default(), msg: m, gas_limit: None, reply_on: ReplyOn::Never })
+                        } else {
+                            None
+                        };
                         if via == Via::Reply {
                             let m: CosmosMsg<XMsg> = WasmMsg::Execute { contract_addr: b.helper.to_string(), msg: to_json_binary(&PMsg { n: 51 }).unwrap(), funds: vec![] }.into();
                             n.subs.push(SubMsg { id: 8, payload: Binary::from(b"tr".to_vec()), msg: m, gas_limit: None, reply_on: ReplyOn::Always });
                             lookup.insert((chain[i].to_string(), 8u64, b"tr".to_vec()), 61usize);
-                            nodes.insert(61, NodeRt { writes: vec![Write::Set(Hx(b"triggered".to_vec()), Hx(vec![1]))], subs: vec![routed], ..Default::default() });
+                            nodes.insert(61, NodeRt { writes: vec![Write::Set(Hx(b"triggered".to_vec()), Hx(vec![1]))], subs: failing.into_iter().chain(std::iter::once(routed)).collect(), ..Default::default() });
                         } else {
+                            n.subs.extend(failing);
                             n.subs.push(routed);
                         }
                         lookup.insert((chain[i].to_string(), 7u64, b"pl".to_vec()), 60usize);
@@ -592,6 +613,8 @@ impl RoutingCheck {
                     nodes.insert(i, n);
                 }
                 nodes.insert(50, NodeRt { writes: vec![Write::Set(Hx(b"sib".to_vec()), Hx(vec![1]))], ..Default::default() });
+                nodes.insert(53, NodeRt { writes: vec![Write::Set(Hx(b"selfcall".to_vec()), Hx(vec![1]))], ..Default::default() });
+                nodes.insert(52, NodeRt { writes: vec![Write::Set(Hx(b"doomed".to_vec()), Hx(vec![1]))], fail: true, ..Default::default() });
                 nodes.insert(51, NodeRt { writes: vec![Write::Set(Hx(b"trig".to_vec()), Hx(vec![1]))], fail: case.trigger_fails, ..Default::default() });
                 nodes.insert(60, NodeRt { writes: vec![Write::Set(Hx(b"replied".to_vec()), Hx(vec![1]))], ..Default::default() });
                 install(nodes, BTreeMap::new(), lookup);
@@ -631,15 +654,57 @@ impl RoutingCheck {
                     }
                     wasm_want.push((if i == 0 { b.user.to_string() } else { chain[i - 1].to_string() }, c.to_string()));
                 }
+                if self_funded {
+                    wasm_want.push((emitter.to_string(), emitter.to_string()));
+                }
                 if case.sibling && !chain.is_empty() {
                     wasm_want.push((emitter.to_string(), b.helper.to_string()));
                 }
                 if via == Via::Reply {
                     wasm_want.push((emitter.to_string(), b.helper.to_string()));
                 }
+                let aborted_before = case.before_fails && !chain.is_empty();
+                if aborted_before {
+                    wasm_want.push((emitter.to_string(), b.helper.to_string()));
+                }
                 ensure!(wasm_seen == wasm_want, "C17:wasm-module-bypassed", "{:?} from {:?}: the configured wasm module saw the calls {:?}, the call chain is {:?}", k, case.origin, wasm_seen, wasm_want);
                 let mine: Vec<&LogEntry> = log.iter().filter(|e| e.slot != "wasm").filter(|e| !(e.slot == "bank" && e.op == "query" && e.payload.contains("all_balances"))).filter(|e| !(e.slot == "bank" && eslot == "staking" && mode == Mode::Default)).collect();
+                let mut mine = mine;
+                if self_funded {
+                    // the funds attached to the self-call: one bank send from the contract to itself
+                    let transfer: CosmosMsg<XMsg> = BankMsg::Send { to_address: emitter.to_string(), amount: vec![coin(1, "eth")] }.into();
+                    let (tslot, top, tpayload) = expected_log(&transfer);
+                    let is_transfer = |e: &LogEntry| e.slot == tslot && e.op == top && e.payload == tpayload && e.sender == emitter.as_str();
+                    if !log.iter().any(is_transfer) {
+                        fail!("C17:message-not-delivered", "{:?} from {:?}: the contract called itself with 1eth attached, but the bank module never received that transfer; log: {:?}", k, case.origin, log);
+                    }
+                    if let Some(p) = mine.iter().position(|e| is_transfer(e)) {
+                        mine.remove(p);
+                    }
+                    cx.label("exec:self-call-with-funds");
+                }
                 let hits: Vec<&&LogEntry> = mine.iter().filter(|e| e.slot == eslot && e.op == eop && e.payload == epayload).collect();
+                if aborted_before {
+                    // the sibling before the routed message failed without being caught: nothing after it may run
+                    ensure!(mine.is_empty(), "C17:delivered-after-abort", "{:?} from {:?}: an earlier sibling sub-message failed (reply_on Never), yet modules were called afterwards: {:?}", k, case.origin, mine);
+                    ensure!(res.is_err(), "C17:module-failure-swallowed", "{:?} from {:?}: an earlier sibling failed uncaught but the caller got Ok", k, case.origin);
+                    let after = scan(b.app.storage());
+                    if let Some(d) = diff_scans(&before, &after) {
+                        fail!("C17:failed-module-left-state", "{:?} from {:?}: the call returned Err, but storage changed: {}", k, case.origin, d);
+                    }
+                    let entered: Vec<&str> = trace.iter().filter(|e| matches!(e.kind, Kind::Execute | Kind::Migrate | Kind::Sudo)).map(|e| e.contract.as_str()).collect();
+                    let mut want: Vec<&str> = chain.iter().map(|a| a.as_str()).collect();
+                    if self_funded {
+                        want.push(emitter.as_str());
+                    }
+                    for _ in 0..(case.sibling as usize + (via == Via::Reply) as usize + 1) {
+                        want.push(b.helper.as_str());
+                    }
+                    ensure!(entered == want, "C17:call-chain", "{:?}: entered {:?}, expected {:?}", k, entered, want);
+                    cx.label("exec:aborted-before-the-routed-message");
+                    cx.mark_nontrivial();
+                    return Ok(());
+                }
                 ensure!(!hits.is_empty(), "C17:message-not-delivered", "{:?} from {:?}: the {} module never received the message (payload {}); log: {:?}", k, case.origin, eslot, epayload, log);
                 ensure!(hits.len() == 1, "C17:message-delivered-twice", "{:?}: delivered {} times to {}", k, hits.len(), eslot);
                 ensure!(hits[0].sender == emitter.as_str(), "C17:wrong-sender", "{:?} from {:?}: module saw sender {} but the message was dispatched by {}", k, case.origin, hits[0].sender, emitter);
@@ -674,6 +739,9 @@ impl RoutingCheck {
                     }
                     let entered: Vec<&str> = trace.iter().filter(|e| matches!(e.kind, Kind::Execute | Kind::Migrate | Kind::Sudo)).map(|e| e.contract.as_str()).collect();
                     let mut want: Vec<&str> = chain.iter().map(|a| a.as_str()).collect();
+                    if self_funded {
+                        want.push(emitter.as_str());
+                    }
                     if case.sibling {
                         want.push(b.helper.as_str());
                     }
@@ -790,7 +858,7 @@ impl Check for RoutingCheck {
         Spec {
             id: "C17",
             level: "exploration",
-            rule: "generated: a mode (crate's real keeper/default, crate's accepting module, crate's failing module) for each of the seven router slots, a message (16 kinds over bank, custom, staking, distribution, ibc, gov, stargate, any) or query (9 kinds) or sudo with generated payload, an entry point of the emitting contract (execute, migrate, sudo, or the reply to a helper call that succeeded or failed), an origin (top level; chain of 1-3 contracts written for the chain's message type; chain of 1-3 Empty-typed contracts lifted by ContractWrapper), a reply_on mode and an optional earlier sibling write; oracle: exactly one log entry, in the slot configured for that kind, with the dispatching contract/user as sender and the payload intact, no other module called, caller sees Ok iff the module accepted (or the failure is caught by reply), failed calls leave root storage byte-identical including the marker the module wrote before failing. The cross product {kind} x {origin} x {mode} x {Never, Always} is enumerated in every run. Non-trivial: a non-bank kind from depth>=1, or the lifted origin, or a failing module after a sibling write, or a query from inside a contract; distinct = distinct serialised case",
+            rule: "generated: a mode (crate's real keeper/default, crate's accepting module, crate's failing module) for each of the seven router slots, a message (16 kinds over bank, custom, staking, distribution, ibc, gov, stargate, any) or query (9 kinds) or sudo with generated payload, an entry point of the emitting contract (execute, migrate, sudo, or the reply to a helper call that succeeded or failed), an origin (top level; chain of 1-3 contracts written for the chain's message type; chain of 1-3 Empty-typed contracts lifted by ContractWrapper), a reply_on mode, an optional earlier sibling write, an optional earlier call of the contract to itself with funds attached (the transfer must reach the bank slot) and an optional earlier sibling that fails uncaught (then nothing may be delivered); oracle: exactly one log entry, in the slot configured for that kind, with the dispatching contract/user as sender and the payload intact, no other module called, caller sees Ok iff the module accepted (or the failure is caught by reply), failed calls leave root storage byte-identical including the marker the module wrote before failing. The cross product {kind} x {origin} x {mode} x {Never, Always} is enumerated in every run. Non-trivial: a non-bank kind from depth>=1, or the lifted origin, or a failing module after a sibling write, or a query from inside a contract; distinct = distinct serialised case",
             assumptions: vec![
                 "with a real keeper in a slot only requests that keeper supports are sent (delegate, set-withdraw-address, bank send/burn by funded senders)",
                 "CosmosMsg::Custom cannot be emitted by an Empty-typed contract (excluded for the lifted origin)",
@@ -832,7 +900,7 @@ impl Check for RoutingCheck {
             2 => Via::Sudo,
             _ => Via::Reply,
         };
-        Case { trigger_fails: g.bool(), via, modes, origin, depth: 1 + g.below(3) as u8, what, reply_on, sibling: g.bool() }
+        Case { self_funded: g.chance(1, 4), before_fails: g.chance(1, 6), trigger_fails: g.bool(), via, modes, origin, depth: 1 + g.below(3) as u8, what, reply_on, sibling: g.bool() }
     }
 
     fn execute(&self, case: &Case, cx: &mut Cx) -> Result<(), Failure> {
@@ -852,7 +920,7 @@ impl Check for RoutingCheck {
                         let mut modes = vec![Mode::Default; 7];
                         modes[slot_of(k)] = mode;
                         for via in [Via::Execute, Via::Migrate, Via::Sudo, Via::Reply] {
-                            out.push(Case { trigger_fails: reply_on == RO::Always, via, modes: modes.clone(), origin, depth: 1, what: What::Exec(k.clone()), reply_on, sibling: reply_on == RO::Never });
+                            out.push(Case { self_funded: via == Via::Execute && reply_on == RO::Never, before_fails: false, trigger_fails: reply_on == RO::Always, via, modes: modes.clone(), origin, depth: 1, what: What::Exec(k.clone()), reply_on, sibling: reply_on == RO::Never });
                         }
                     }
                 }
@@ -862,7 +930,7 @@ impl Check for RoutingCheck {
         for q in &queries {
             for origin in [Origin::Top, Origin::Puppet, Origin::Lifted] {
                 for mode in [Mode::Default, Mode::Accept, Mode::Fail] {
-                    out.push(Case { trigger_fails: false, via: Via::Execute, modes: vec![mode; 7], origin, depth: 2, what: What::Query(q.clone()), reply_on: RO::Never, sibling: false });
+                    out.push(Case { self_funded: false, before_fails: false, trigger_fails: false, via: Via::Execute, modes: vec![mode; 7], origin, depth: 2, what: What::Query(q.clone()), reply_on: RO::Never, sibling: false });
                 }
             }
         }
@@ -893,6 +961,16 @@ impl Check for RoutingCheck {
         if case.trigger_fails {
             let mut c = case.clone();
             c.trigger_fails = false;
+            out.push(c);
+        }
+        if case.before_fails {
+            let mut c = case.clone();
+            c.before_fails = false;
+            out.push(c);
+        }
+        if case.self_funded {
+            let mut c = case.clone();
+            c.self_funded = false;
             out.push(c);
         }
         for i in 0..7 {
